@@ -27,6 +27,7 @@ def run(ctx):
     ctx.each(r16e, ctx, repo)
     ctx.each(r16g, ctx, repo)
     ctx.each(r16h, ctx, repo)
+    ctx.each(r16i, ctx, repo)
     ctx.each(informational, ctx, repo)
 
 
@@ -485,3 +486,99 @@ def r16h(ctx, repo):
                     raise AnalysisError("R16h: cannot decide the value domain of `%s`" % norm(s_))
                 ctx.check(False not in dom, "R16h", fi, s_, "flag is True or None", "`%s` can set the flag to False: the writer then never emits that column again, so an uncertainty / constant / unit entered after loading a sheet that lacked the column is silently dropped when the book is saved" % norm(s_))
     ctx.require(n >= 6, "R16h: fewer flag assignments in the readers (%d) than confirmed (6)" % n)
+
+
+def _block_of(st):
+    p = getattr(st, "_parent", None)
+    for f in ("body", "orelse"):
+        b = getattr(p, f, None)
+        if isinstance(b, list) and any(x is st for x in b):
+            return p, b
+    return p, []
+
+
+from ..core.cfg import branch_guards  # noqa: E402
+
+
+def r16i(ctx, repo):
+    from ..core import boolx as B
+
+    ctx.rule("R16i", "value tables round-trip field by field (TimeDependentValuesEntry.from_rows / write): the reader takes units, uncertainty, constant (legacy: assumption) from the columns of those names and every year's value from that year's column into TimeSeries.units / sigma / assumption / insert(t, .); the writer puts row_ts.units / sigma / assumption into the column whose header it appended in the same block (header list and column offset advance together, the column index is taken before the offset moves) and every (t, v) of the series into the column of the equal year")
+    rd = repo.func("excel", "TimeDependentValuesEntry.from_rows")
+    lp = [l for l in own_nodes(rd.node) if isinstance(l, ast.For) and isinstance(l.target, ast.Name) and l.target.id == "row"]
+    ctx.require(len(lp) == 1, "R16i: the loop over table rows was not found in from_rows")
+    row = lp[0]
+    want = {
+        "ts.sigma": ("uncertainty", "'uncertainty' in headings"),
+        "ts.assumption": ("constant", "'constant' in headings"),
+    }
+    for tgt, (col, cond) in want.items():
+        st = [s for s in ast.walk(row) if isinstance(s, ast.Assign) and ast.unparse(s.targets[0]) == tgt and ast.unparse(s.value) == "cell_get_number(row[headings['%s']])" % col]
+        ok = len(st) == 1 and B.equivalent(B.cond(branch_guards(st[0], stop=row)), B.parse_cond(cond))
+        ctx.check(ok, "R16i", rd, st[0] if st else row, "%s read from the '%s' column when the sheet has one" % (tgt, col), "`%s` is not read from the '%s' column exactly when the sheet has that column: the %s entered in the databook is lost (or taken from another column) when the book is read" % (tgt, col, tgt.split(".")[1]))
+    leg = [s for s in ast.walk(row) if isinstance(s, ast.Assign) and ast.unparse(s.targets[0]) == "ts.assumption" and "headings['assumption']" in ast.unparse(s.value)]
+    ctx.check(len(leg) == 1, "R16i", rd, leg[0] if leg else row, "legacy 'assumption' column still read", "the legacy 'assumption' column is no longer read into ts.assumption", stmt_text="legacy-assumption")
+    un = [s for s in ast.walk(row) if isinstance(s, ast.Assign) and astq.is_name(s.targets[0], "units") and "headings['units']" in ast.unparse(s.value)]
+    mk = [s for s in ast.walk(row) if isinstance(s, ast.Assign) and astq.is_name(s.targets[0], "ts") and ast.unparse(s.value) == "TimeSeries(units=units)"]
+    ctx.check(len(un) == 1 and len(mk) == 1 and not branch_guards(mk[0], stop=row), "R16i", rd, mk[0] if mk else row, "units column becomes the series' units", "the series is not created with the units read from the 'units' column", stmt_text="units-read")
+    ins = [c for c in ast.walk(row) if isinstance(c, ast.Call) and ast.unparse(c.func) == "ts.insert"]
+    ok = len(ins) == 1
+    if ok:
+        l2 = K.enclosing_loops(ins[0])[0]
+        ok = ast.unparse(l2.iter) == "times.items()" and isinstance(l2.target, ast.Tuple) and [ast.unparse(a) for a in ins[0].args] == [ast.unparse(l2.target.elts[0]), "cell_get_number(row[%s])" % ast.unparse(l2.target.elts[1])] and not guards_of(enclosing_stmt(ins[0]), stop=l2)
+    ctx.check(ok, "R16i", rd, enclosing_stmt(ins[0]) if ins else row, "every year's cell is inserted at that year", "the value of each year is not inserted as ts.insert(t, cell_get_number(row[idx])) for every (t, idx) of the header's year columns", stmt_text="years-read")
+    keep = [s for s in ast.walk(row) if isinstance(s, ast.Assign) and ast.unparse(s.targets[0]) == "ts_entries[series_name]" and ast.unparse(s.value) == "ts"]
+    fin = [s for s in own_nodes(rd.node) if isinstance(s, ast.Assign) and ast.unparse(s.targets[0]) == "tdve.ts" and ast.unparse(s.value) == "ts_entries"]
+    ctx.check(len(keep) == 1 and len(fin) == 1, "R16i", rd, keep[0] if keep else row, "every row's series is kept under its name", "the series read from a row is not stored under the row's name in the table", stmt_text="rows-kept")
+
+    wr = repo.func("excel", "TimeDependentValuesEntry.write")
+    # header / offset discipline
+    apps = [c for c in own_nodes(wr.node) if isinstance(c, ast.Call) and ast.unparse(c.func) == "headings.append"]
+    blocks = {}
+    for c in apps:
+        p, b = _block_of(enclosing_stmt(c))
+        blocks.setdefault(id(p), (p, b, []))[2].append(c)
+    idxvars = {}
+    for pid, (p, b, cs) in blocks.items():
+        if isinstance(p, (ast.FunctionDef,)):
+            continue
+        cs = sorted(cs, key=lambda c_: (c_.lineno, c_.col_offset))
+        incs = [s for s in b if isinstance(s, ast.AugAssign) and astq.is_name(s.target, "offset")]
+        amount = sum(s.value.value for s in incs if isinstance(s.op, ast.Add) and isinstance(s.value, ast.Constant)) if all(isinstance(s.op, ast.Add) and isinstance(s.value, ast.Constant) for s in incs) else None
+        idx = [s for s in b if isinstance(s, ast.Assign) and ast.unparse(s.value) == "offset"]
+        ok = amount == len(cs) and len(idx) == 1 and incs and idx[0].lineno < incs[0].lineno
+        label = ast.unparse(cs[0].args[0]).replace('"', "'")
+        ctx.check(ok, "R16i", wr, b[0], "header %s: list and offset advance together, index taken before the move" % label, "in the block that appends the header %s the column offset does not advance by the number of headers appended (%s vs %d), or the column index is not taken from `offset` before it moves: the cells of this and all later columns are written under the wrong header" % (label, amount, len(cs)), stmt_text="header-block:%s" % label)
+        if idx:
+            idxvars[label] = ast.unparse(idx[0].targets[0])
+    fields = {"'Units'": ("units", "write_units"), "'Uncertainty'": ("sigma", "write_uncertainty"), "self.assumption_heading": ("assumption", "write_assumption")}
+    for label, (attr, flag) in fields.items():
+        iv = idxvars.get(label)
+        if iv is None:
+            ctx.fail("R16i", wr, wr.node, "the writer has no header block for %s" % label, stmt_text="header-missing:%s" % label)
+            continue
+        cells = [c for c in own_nodes(wr.node) if isinstance(c, ast.Call) and ast.unparse(c.func) == "worksheet.write" and len(c.args) >= 3 and ast.unparse(c.args[1]) == iv]
+        vals = {ast.unparse(c.args[2]) for c in cells}
+        if attr == "units":
+            okv = bool(cells) and vals <= {"unit", "FS.DEFAULT_SYMBOL_INAPPLICABLE"} and "unit" in vals
+            src = [s for s in own_nodes(wr.node) if isinstance(s, ast.Assign) and astq.is_name(s.targets[0], "unit")]
+            okv = okv and bool(src) and all("row_ts.units" in ast.unparse(s.value) for s in src)
+        else:
+            okv = bool(cells) and vals == {"row_ts.%s" % attr}
+        okg = all(any(pol and ast.unparse(t) == flag for t, pol in guards_of(enclosing_stmt(c))) for c in cells)
+        ctx.check(okv and okg, "R16i", wr, enclosing_stmt(cells[0]) if cells else wr.node, "column %s carries row_ts.%s" % (label, attr), "the cells of the %s column do not carry row_ts.%s (written: %s) under `%s`: the value comes back as something else (or not at all) when the book is read" % (label, attr, sorted(vals), flag), stmt_text="cells:%s" % attr)
+    # year values
+    put = [s for s in own_nodes(wr.node) if isinstance(s, ast.Assign) and ast.unparse(s.targets[0]) == "content[idx[0]]"]
+    ok = len(put) == 1
+    if ok:
+        l2 = K.enclosing_loops(put[0])[0]
+        ok = ast.unparse(l2.iter) == "zip(row_ts.t, row_ts.vals)" and ast.unparse(put[0].value) == ast.unparse(l2.target.elts[1])
+        m = [s for s in l2.body if isinstance(s, ast.Assign) and astq.is_name(s.targets[0], "idx")]
+        ok = ok and len(m) == 1 and ast.unparse(m[0].value) in ("np.where(self.tvec == %s)[0]" % ast.unparse(l2.target.elts[0]), "np.where(%s == self.tvec)[0]" % ast.unparse(l2.target.elts[0]))
+    ctx.check(ok, "R16i", wr, put[0] if put else wr.node, "each (t, v) goes to the column of the equal year", "the writer does not place each value of the series in the column whose year equals the value's year (content[np.where(self.tvec == t)[0][0]] = v)", stmt_text="years-written")
+    outs = [c for c in own_nodes(wr.node) if isinstance(c, ast.Call) and ast.unparse(c.func) in ("worksheet.write", "worksheet.write_blank") and len(c.args) >= 3 and ast.unparse(c.args[1]) == "offset + idx"]
+    ok = len(outs) == 2 and all(ast.unparse(c.args[2]) == "v" for c in outs)
+    ctx.check(ok, "R16i", wr, enclosing_stmt(outs[0]) if outs else wr.node, "year cells written at offset + position", "the year cells are not written at column offset + idx with the value of that year", stmt_text="years-cells")
+    hd = [s for s in own_nodes(wr.node) if isinstance(s, ast.AugAssign) and astq.is_name(s.target, "headings")]
+    ok = len(hd) == 1 and isinstance(hd[0].op, ast.Add) and ast.unparse(hd[0].value) == "[float(x) for x in self.tvec]"
+    ctx.check(ok, "R16i", wr, hd[0] if hd else wr.node, "year headers follow the fixed columns", "the year headers are not appended after the fixed columns in the order of self.tvec", stmt_text="years-header")
